@@ -234,6 +234,12 @@ def run(rep, tier, rng):
     # layout differences: a failing input exists only if the behaviour checks above failed too
     behavioural = len(rep.violations) > n_before
     for m in structural:
+        if m["op"] == "state-accepts":
+            rep.violation(f"State({m['d']}, subdimensions={m['sub']}, represent_cc_identity={m.get('represent_cc_identity')}) is accepted / rejected contrary to "
+                          "'dimensions must be divisible by subdimensions'",
+                          {"case": m, "python": f"import nengo_spa as spa\nwith spa.Network():\n    spa.State({m['d']}, subdimensions={m['sub']}, "
+                                                f"represent_cc_identity={m.get('represent_cc_identity')})\nassert {m['d'] % m['sub'] == 0}, 'accepted a split that does not divide'\n"})
+            continue
         rep.violation(f"{m['op']} of (d={m['d']}, sub={m['sub']}) differs from the partition [0,1) [1,sub) then sub-sized chunks "
                       "(correspondence Tie/IdEnsTie.v with Model/IdEnsArray.v)",
                       {"case": m, "python": "assert False, 'slices / sizes differ from the model layout'\n",
